@@ -19,7 +19,7 @@ func flattenCase(g *Gen, o flatOpts, plus bool, repeats, permutes int, faults bo
 	// KeepNames applies to single-document bundles: decided first, so that half of them use plain names only
 	keep := !o.Expand && g.p(0.2)
 	bo := BundleOpts{Plus: plus, AnonOK: anon, SharedOK: anon && !o.RemoveUnused, MaxAux: 3}
-	scenarios := []string{"collide-pointer", "collide-many", "collide-nested", "unused-chain", "expand-via-response", "collide-simple-shared", "prefix-names", "ref-siblings", "generated-name-clash", "case-twins", "digit-siblings", "odd-status", "pointer-chain-sections", "hash-twins", "no-root-definitions", "pointer-in-simple-target", "shared-param-twins", "id-equals-derived-key", "cycle-collide-simple", "remote-ref-siblings", "empty-mangled-names", "relative-path-two-bases", "generated-name-equals-imported", "alias-to-pointer", "collide-sibling-refs", "root-named-aux", "two-spellings", "alias-named-like-generated", "pointer-inside-moved"}
+	scenarios := []string{"collide-pointer", "collide-many", "collide-nested", "unused-chain", "expand-via-response", "collide-simple-shared", "prefix-names", "ref-siblings", "generated-name-clash", "case-twins", "digit-siblings", "odd-status", "pointer-chain-sections", "hash-twins", "no-root-definitions", "pointer-in-simple-target", "shared-param-twins", "id-equals-derived-key", "cycle-collide-simple", "remote-ref-siblings", "empty-mangled-names", "relative-path-two-bases", "generated-name-equals-imported", "alias-to-pointer", "collide-sibling-refs", "root-named-aux", "two-spellings", "alias-named-like-generated", "pointer-inside-moved", "root-alias-of-same-name", "mangled-sibling-of-recursive", "two-oaigen-kinds", "pattern-properties-complex"}
 	if !keep && !plus && index%3 != 0 {
 		// two bundles in three carry a planted interplay shape, taken in turn
 		bo.Scenario = scenarios[(index-index/3-1)%len(scenarios)]
